@@ -736,3 +736,170 @@ def generators_consumed_twice(func: ast.AST) -> List[str]:
         if len(uses) > 1:
             out.append(f"`{name}` is a generator ({' '.join(ast.unparse(defs[0]).split())[:50]}) consumed at lines {sorted(n.lineno for n in uses)}")
     return out
+
+
+# ----------------------------------------------------------------------------------------------------------------
+# virtual inlining of private helpers ("extract method" is not a behaviour change)
+# ----------------------------------------------------------------------------------------------------------------
+_inl_counter = [0]
+
+
+def _callee_of(mod: Module, cls: Optional[str], call: ast.Call):
+    """(FunctionDef, skip_first_param) for self._m(..) / cls._m(..) / ClassName._m(..) of the same class and for module-level _f(..)"""
+    f = call.func
+    if isinstance(f, ast.Attribute) and isinstance(f.value, ast.Name) and cls is not None and (f.value.id in ("self", "cls") or f.value.id == cls):
+        d = mod.functions.get(f"{cls}.{f.attr}")
+        if d is not None:
+            decos = [ast.unparse(x) for x in d.decorator_list]
+            if any(k in x for x in decos for k in ("cache", "property", "timeit")):
+                return None
+            return d, (0 if "staticmethod" in decos else 1)
+    if isinstance(f, ast.Name) and f.id.startswith("_"):
+        d = mod.functions.get(f.id)
+        if d is not None and not d.decorator_list:
+            return d, 0
+    return None
+
+
+def inline_helpers(mod: Module, func: ast.FunctionDef, depth: int = 2, only_private: bool = True) -> ast.FunctionDef:
+    """a COPY of func in which statement-level calls of private helpers of the same class / module are replaced by the helper's body
+    (parameters substituted by the argument expressions, the helper's locals renamed).  Handled call forms:  `helper(...)` as a statement,
+    `x = helper(...)` and `return helper(...)` when the helper's only `return <expr>` is its last statement.  Anything else is left as a call.
+    The parent map of `mod` is extended with the new nodes so that rules can keep using mod.parent / mod.loc."""
+    import copy as _copy
+    qual = mod.qualname_of(func)
+    cls = qual.split(".")[0] if "." in qual and qual.split(".")[0] in mod.classes else None
+    out = _copy.deepcopy(func)
+
+    def simple_returns(d: ast.FunctionDef) -> Optional[bool]:
+        rets = [n for n in walk_no_nested(d) if isinstance(n, ast.Return)]
+        if any(isinstance(n, (ast.Yield, ast.YieldFrom)) for n in walk_no_nested(d)):
+            return None
+        if not rets:
+            return False
+        if len(rets) == 1 and d.body and d.body[-1] is rets[0]:
+            return True
+        if all(r.value is None for r in rets):
+            return None          # early exits: not inlined
+        return None
+
+    def expand(call: ast.Call, kind: str, target) -> Optional[List[ast.stmt]]:
+        res = _callee_of(mod, cls, call)
+        if res is None:
+            return None
+        d, skip = res
+        if only_private and not d.name.startswith("_"):
+            return None
+        if d is func or d.name == func.name:
+            return None
+        sr = simple_returns(d)
+        if sr is None or (kind != "expr" and sr is not True):
+            return None
+        a = d.args
+        if a.vararg or a.kwarg or a.posonlyargs or any(isinstance(x, ast.Starred) for x in call.args) or any(k.arg is None for k in call.keywords):
+            return None
+        params = [p.arg for p in a.args][skip:]
+        defaults = dict(zip([p.arg for p in a.args][len(a.args) - len(a.defaults):], a.defaults))
+        bound: Dict[str, ast.expr] = {}
+        for p_, v in zip(params, call.args):
+            bound[p_] = v
+        for k in call.keywords:
+            bound[k.arg] = k.value
+        for p_ in params:
+            if p_ not in bound:
+                if p_ in defaults:
+                    bound[p_] = defaults[p_]
+                else:
+                    return None
+        _inl_counter[0] += 1
+        sfx = f"__inl{_inl_counter[0]}"
+        body = _copy.deepcopy(d.body)
+        if body and isinstance(body[0], ast.Expr) and isinstance(body[0].value, ast.Constant) and isinstance(body[0].value.value, str):
+            body = body[1:]
+        assigned = {t.id for st in body for t, v, s_ in assignments(st) if isinstance(t, ast.Name)}
+        for st in body:
+            for n in ast.walk(st):
+                if isinstance(n, (ast.For, ast.comprehension)):
+                    for x in ast.walk(n.target):
+                        if isinstance(x, ast.Name):
+                            assigned.add(x.id)
+        pre: List[ast.stmt] = []
+        subst: Dict[str, ast.expr] = {}
+        for p_, v in bound.items():
+            if p_ in assigned or not isinstance(v, (ast.Name, ast.Attribute, ast.Constant, ast.Subscript)):
+                nm = p_ + sfx
+                pre.append(ast.copy_location(ast.Assign(targets=[ast.Name(id=nm, ctx=ast.Store())], value=_copy.deepcopy(v)), call))
+                subst[p_] = ast.Name(id=nm, ctx=ast.Load())
+            else:
+                subst[p_] = v
+        rename = {n: n + sfx for n in assigned if n not in bound}
+        rename.update({p_: subst[p_].id for p_ in bound if p_ in assigned})
+
+        class R(ast.NodeTransformer):
+            def visit_Name(self, n):
+                if n.id in rename:
+                    return ast.copy_location(ast.Name(id=rename[n.id], ctx=n.ctx), n)
+                if n.id in subst and isinstance(n.ctx, ast.Load):
+                    return ast.copy_location(_copy.deepcopy(subst[n.id]), n)
+                return n
+        body = [R().visit(st) for st in body]
+        if sr is True:
+            ret = body[-1]
+            body = body[:-1]
+            if kind == "assign":
+                body.append(ast.copy_location(ast.Assign(targets=[target], value=ret.value), call))
+            elif kind == "return":
+                body.append(ast.copy_location(ast.Return(value=ret.value), call))
+            else:
+                body.append(ast.copy_location(ast.Expr(value=ret.value), call))
+        for st in pre + body:
+            ast.fix_missing_locations(st)
+        # position: every inlined node sits at the CALL SITE's line (so that line-order comparisons with the caller's statements stay meaningful);
+        # the order inside the inlined body is kept in col_offset; the real line is remembered for reports (Module.loc)
+        seq = 0
+        for st in pre + body:
+            for n in ast.walk(st):
+                if hasattr(n, "lineno"):
+                    if not hasattr(n, "_orig_lineno"):
+                        n._orig_lineno = n.lineno
+                    seq += 1
+                    n.lineno = call.lineno
+                    n.end_lineno = call.lineno
+                    n.col_offset = 1000 * (getattr(call, "col_offset", 0) // 1000 + 1) + seq
+        return pre + body
+
+
+    def rewrite(stmts: List[ast.stmt], d: int) -> List[ast.stmt]:
+        res: List[ast.stmt] = []
+        for st in stmts:
+            new = None
+            if d > 0:
+                if isinstance(st, ast.Expr) and isinstance(st.value, ast.Call):
+                    new = expand(st.value, "expr", None)
+                elif isinstance(st, ast.Assign) and len(st.targets) == 1 and isinstance(st.value, ast.Call):
+                    new = expand(st.value, "assign", st.targets[0])
+                elif isinstance(st, ast.Return) and isinstance(st.value, ast.Call):
+                    new = expand(st.value, "return", None)
+            if new is not None:
+                res.extend(rewrite(new, d - 1))
+                continue
+            for fld in ("body", "orelse", "finalbody"):
+                sub = getattr(st, fld, None)
+                if isinstance(sub, list) and sub and isinstance(sub[0], ast.stmt) and not isinstance(st, (ast.FunctionDef, ast.AsyncFunctionDef, ast.ClassDef)):
+                    setattr(st, fld, rewrite(sub, d))
+            for h_ in getattr(st, "handlers", []) or []:
+                h_.body = rewrite(h_.body, d)
+            res.append(st)
+        return res
+
+    out.body = rewrite(out.body, depth)
+    for n in ast.walk(out):
+        for ch in ast.iter_child_nodes(n):
+            mod.parent[id(ch)] = n
+    mod.parent[id(out)] = mod.parent.get(id(func))
+    return out
+
+
+def before(a: ast.AST, b: ast.AST) -> bool:
+    """a precedes b in source / inlined order"""
+    return (a.lineno, a.col_offset) < (b.lineno, b.col_offset)
